@@ -5,37 +5,184 @@ From DH Require Import Lib.CheckLib Model.Store Proofs.StoreProofs Model.FeedSpe
 Import ListNotations.
 Open Scope Z_scope.
 
-(** a spec state that is consistent with everything observed along the history *)
-Fixpoint wit (s : sstate) (ops : list cop) : Prop :=
+
+(** ** sets of pairs *)
+Lemma pair_eqb_eq a b : pair_eqb a b = true <-> a = b.
+Proof.
+  destruct a as [a1 a2], b as [b1 b2]. unfold pair_eqb. cbn. rewrite andb_true_iff, !Z.eqb_eq.
+  split; [intros [-> ->]; reflexivity | intros [= -> ->]; auto].
+Qed.
+Lemma In_pinsert x l y : In y (pinsert x l) <-> y = x \/ In y l.
+Proof.
+  induction l as [|z l IH]; cbn; [intuition|].
+  destruct (pair_ltb x z); [cbn; intuition|].
+  destruct (pair_eqb x z) eqn:E; [apply pair_eqb_eq in E; subst; cbn; intuition|]. cbn. rewrite IH. intuition.
+Qed.
+Lemma pcanon_In l y : In y (pcanon l) <-> In y l.
+Proof. induction l as [|x l IH]; cbn; [tauto|]. rewrite In_pinsert, IH. intuition. Qed.
+Lemma subsetb_spec a b : subsetb a b = true <-> (forall x, In x a -> In x b).
+Proof.
+  unfold subsetb. rewrite forallb_forall. split; intros H x Hx.
+  - apply H in Hx. apply existsb_exists in Hx. destruct Hx as (y & Hy & E). apply pair_eqb_eq in E. now subst.
+  - apply existsb_exists. exists x. split; [auto | now apply pair_eqb_eq].
+Qed.
+Lemma subsetb_mono a b c : subsetb a b = true -> (forall x, In x b -> In x c) -> subsetb a c = true.
+Proof. rewrite !subsetb_spec. auto. Qed.
+
+Lemma collect_mono {K A} (ok ok' : K -> bool) (f : dstate -> list A) l :
+  (forall k, ok k = true -> ok' k = true) -> forall x, In x (collect ok f l) -> In x (collect ok' f l).
+Proof.
+  intros H. induction l as [|p l IH]; intros x Hx; [exact Hx|]. rewrite collect_cons in *.
+  apply in_app_or in Hx. apply in_or_app. destruct Hx as [Hx|Hx]; [left | right; auto].
+  destruct (ok (fst p)) eqn:E; [|contradiction]. now rewrite (H _ E).
+Qed.
+
+(** whatever ids a scope was resolved to: the relations found under it are among the unscoped ones *)
+Lemma rel_ids_unscoped h sc start pred inverse x :
+  In x (rel_ids h sc start pred inverse) -> In x (rel_ids h [] start pred inverse).
+Proof.
+  unfold rel_ids. rewrite !pcanon_In, !in_map_iff. intros (y & E & Hy). exists y. split; [exact E|].
+  revert Hy. apply collect_mono. intros k Hk. unfold pass in *. apply andb_true_iff in Hk. destruct Hk as [Hk _].
+  now rewrite Hk.
+Qed.
+Lemma rel_ids_obs h scope start pred inverse :
+  rel_ids h (scope_ids (h_names h) scope) start pred inverse = rel_of (obs h (QRelated start pred inverse scope)).
+Proof. reflexivity. Qed.
+
+(** ** writes through a handle *)
+Lemma In_set_assoc_keys {V} i (v : V) l k : In k (map fst (set_assoc i v l)) <-> k = i \/ In k (map fst l).
+Proof.
+  induction l as [|[j w] l IH]; cbn; [intuition|].
+  destruct (Z.eqb_spec i j); [subst; cbn; intuition|].
+  destruct (Z.ltb_spec i j); cbn; [intuition|]. rewrite IH. intuition.
+Qed.
+Lemma incr_set_assoc {V} i (v : V) : forall l lo, lo < i -> incr lo (map fst l) -> incr lo (map fst (set_assoc i v l)).
+Proof.
+  induction l as [|[j w] l IH]; intros lo Hlo H; cbn in *; [auto|]. destruct H as [H1 H2].
+  destruct (Z.eqb_spec i j); [subst; cbn; auto|].
+  destruct (Z.ltb_spec i j); cbn; [repeat split; auto; lia|]. split; [auto|]. apply IH; [lia | auto].
+Qed.
+Lemma abs_set_assoc_deleted nm dl i d : zmem i dl = true -> forall l,
+  flat_map (abs_entry nm dl) (set_assoc i d l) = flat_map (abs_entry nm dl) l.
+Proof.
+  intros Hd. assert (E : forall x, abs_entry nm dl (i, x) = []) by (intros; unfold abs_entry; cbn; now rewrite Hd).
+  induction l as [|[j w] l IH]; cbn [set_assoc flat_map]; [now rewrite E|].
+  destruct (Z.eqb_spec i j); [subst; cbn [flat_map]; now rewrite !E|].
+  destruct (Z.ltb_spec i j); cbn [flat_map]; [now rewrite E | now rewrite IH].
+Qed.
+
+Lemma stale_deleted_full h i ents :
+  hfull h -> zmem i (h_del h) = true -> 0 < i < r_next (h_mem h) ->
+  hfull (stale_write v_fixed i ents h) /\ habs (stale_write v_fixed i ents h) = s_tick (habs h).
+Proof.
+  intros (H & O & M) Hd Hb. destruct H as [Hs Hr]. unfold dinvh in Hr. pose proof Hr as Hr0. inv_rinv Hr0.
+  unfold stale_write. split.
+  - split; [split; [exact Hs|] | split; [|exact M]].
+    + unfold dinvh. cbn [upd_st h_st h_disk apply_wop tick set_ds s_ds s_clock]. rewrite <- Hs in *.
+      constructor; cbn [s_ds]; auto.
+      * apply incr_set_assoc; [lia | exact Hsorted].
+      * apply Forall_forall. intros k Hk. apply In_set_assoc_keys in Hk. destruct Hk as [->|Hk]; [lia|].
+        rewrite Forall_forall in Hbound. auto.
+      * eapply Forall_impl; [|exact Hdata]. cbn. intros k Hk. apply In_set_assoc_keys. now right.
+    + unfold orph in *. cbn [upd_st h_st h_mem apply_wop tick set_ds s_ds]. apply Forall_forall. intros k Hk.
+      apply In_set_assoc_keys in Hk. destruct Hk as [->|Hk]; [left; exact Hd|]. rewrite Forall_forall in O. auto.
+  - unfold habs, abs_of, s_tick. cbn [upd_st h_st h_mem apply_wop tick set_ds s_ds s_clock ss_ds ss_clock]. f_equal.
+    now apply abs_set_assoc_deleted.
+Qed.
+
+Lemma stale_live_is_write h i n ents :
+  assoc n (h_names h) = Some i -> stale_write v_fixed i ents h = fst (write v_fixed n ents h).
+Proof. intros E. unfold write, h_names in *. now rewrite E. Qed.
+
+(** ** what a complete manager operation does to the registry *)
+Lemma mop_effect m h : hfull h ->
+  let h' := fst (run_mop v_fixed m h) in
+  r_next (h_mem h) <= r_next (h_mem h') /\
+  match m with
+  | MCreate n => if has_name n (h_names h) then h_names h' = h_names h /\ h_del h' = h_del h
+                 else h_names h' = h_names h ++ [(n, r_next (h_mem h))] /\ h_del h' = h_del h
+  | MDelete n => if Z.eqb n core then h_names h' = h_names h /\ h_del h' = h_del h
+                 else match assoc n (h_names h) with
+                      | None => h_names h' = h_names h /\ h_del h' = h_del h
+                      | Some j => h_names h' = remove_name n (h_names h) /\ h_del h' = h_del h ++ [j]
+                      end
+  | MRename o n => if Z.eqb o core || negb (has_name o (h_names h)) || Z.eqb n o || has_name n (h_names h)
+                   then h_names h' = h_names h /\ h_del h' = h_del h
+                   else h_names h' = relabel o n (h_names h) /\ h_del h' = h_del h
+  end.
+Proof.
+  intros (H & O & M). destruct H as [Hs Hd]. destruct h as [st meta mem disk]. cbn in Hs. subst mem.
+  unfold metaok in M. cbn [h_meta h_mem] in M. unfold run_mop, h_names, h_del.
+  destruct m as [n|n|o n]; cbn [plan h_mem h_meta r_names v_fixed mkv v_del_atomic].
+  - destruct (has_name n (r_names disk)); (cbn; split; [lia | split; reflexivity]).
+  - destruct (Z.eqb n core); [cbn; split; [lia | split; reflexivity]|].
+    destruct (assoc n (r_names disk)) as [j|] eqn:En; [|cbn; split; [lia | split; reflexivity]].
+    assert (Hin : In n (map fst (r_names disk))) by (apply In_fst_assoc; congruence).
+    pose proof (meta_some {| h_st := st; h_meta := meta; h_mem := disk; h_disk := disk |} n M Hin) as Ms. cbn [h_meta] in Ms.
+    destruct (assoc n meta); [|contradiction]. cbn. split; [lia | split; reflexivity].
+  - unfold has_name. destruct (Z.eqb o core); [cbn; split; [lia | split; reflexivity]|].
+    destruct (assoc o (r_names disk)) as [j|] eqn:Eo; [|cbn; split; [lia | split; reflexivity]].
+    destruct (Z.eqb n o); [cbn; split; [lia | split; reflexivity]|].
+    destruct (assoc n (r_names disk)); [cbn; split; [lia | split; reflexivity]|].
+    assert (Hin : In o (map fst (r_names disk))) by (apply In_fst_assoc; congruence).
+    pose proof (meta_some {| h_st := st; h_meta := meta; h_mem := disk; h_disk := disk |} o M Hin) as Ms. cbn [h_meta] in Ms.
+    destruct (assoc o meta); [|contradiction]. cbn. split; [lia | split; reflexivity].
+Qed.
+
+
+(** a spec state (with its dataset handles) that is consistent with everything observed along the history *)
+Fixpoint wit (c : scand) (ops : list cop) : Prop :=
+  let s := fst c in let hs := snd c in
   match ops with
   | [] => True
   | o :: ops' =>
     match o with
-    | CWrite n ents oc => (if s_has n s then 0 else 1) = oc /\ wit (s_write wef wdm n ents s) ops'
-    | CMop m oc => s_outcome m s = oc /\ wit (s_mop m s) ops'
-    | CGc before after => gc_census_ok before after = true /\ wit s ops'
-    | CRestart => wit s ops'
-    | CCrash m k => wit s ops' \/ wit (s_mop m s) ops'
-    | CQuery q oa => answer_matches (sobs s q) oa = true /\ wit s ops'
+    | CWrite n ents oc => (if s_has n s then 0 else 1) = oc /\ wit (s_write wef wdm n ents s, hs) ops'
+    | CMop m oc => s_outcome m s = oc /\ wit (s_mop m s, sh_mop m s hs) ops'
+    | CGc before after => gc_census_ok before after = true /\ wit c ops'
+    | CRestart => wit (s, []) ops'
+    | CCrash m k => wit (s, []) ops' \/ wit (s_mop m s, []) ops'
+    | CQuery q oa => answer_matches (sobs s q) oa = true /\ wit c ops'
+    | CHold slot n oc => (if s_has n s then 0 else 1) = oc
+                         /\ wit (if s_has n s then (s, (slot, Some n) :: hs) else c) ops'
+    | CStale slot ents oc => (match assoc slot hs with Some _ => 0 | None => 1 end) = oc
+                             /\ wit (match assoc slot hs with Some hn => (s_stale hn ents s, hs) | None => c end) ops'
+    | CKeep slot start pred inverse scope o =>
+      exists l, o = Some l /\ subsetb (pcanon l) (rel_of (sobs s (QRelated start pred inverse scope))) = true /\ wit c ops'
+    | CCont slot start pred inverse o =>
+      exists l, o = Some l /\ subsetb (pcanon l) (rel_of (sobs s (QRelated start pred inverse []))) = true /\ wit c ops'
     end
   end.
 
-Lemma spec_run_wit ops : forall cands s, In s cands -> wit s ops -> spec_run cands ops = true.
+Lemma spec_run_wit ops : forall cands c, In c cands -> wit c ops -> spec_run cands ops = true.
 Proof.
-  induction ops as [|o ops IH]; intros cands s Hin W.
+  induction ops as [|o ops IH]; intros cands c Hin W.
   - destruct cands; [contradiction | reflexivity].
   - destruct cands as [|c0 cands']; [contradiction|]. cbn [spec_run].
-    destruct o as [n ents oc | m oc | before after | | m k | q oa]; cbn [wit] in W.
-    + destruct W as [W1 W2]. apply (IH _ (s_write wef wdm n ents s)); [|exact W2].
-      apply in_map. apply filter_In. split; [exact Hin|]. now apply Z.eqb_eq.
-    + destruct W as [W1 W2]. apply (IH _ (s_mop m s)); [|exact W2].
-      apply in_map. apply filter_In. split; [exact Hin|]. now apply Z.eqb_eq.
-    + destruct W as [W1 W2]. rewrite W1. cbn. apply (IH _ s); assumption.
-    + apply (IH _ s); assumption.
+    destruct o as [n ents oc | m oc | before after | | m k | q oa | slot n oc | slot ents oc
+                   | slot start pred inverse scope o | slot start pred inverse o]; cbn [wit] in W.
+    + destruct W as [W1 W2]. apply (IH _ (s_write wef wdm n ents (fst c), snd c)); [|exact W2].
+      apply (in_map (fun c => (s_write wef wdm n ents (fst c), snd c))). apply filter_In. split; [exact Hin|]. now apply Z.eqb_eq.
+    + destruct W as [W1 W2]. apply (IH _ (s_mop m (fst c), sh_mop m (fst c) (snd c))); [|exact W2].
+      apply (in_map (fun c => (s_mop m (fst c), sh_mop m (fst c) (snd c)))). apply filter_In. split; [exact Hin|]. now apply Z.eqb_eq.
+    + destruct W as [W1 W2]. rewrite W1. cbn. apply (IH _ c); assumption.
+    + apply (IH _ (fst c, [])); [|exact W]. apply (in_map (fun c => (fst c, @nil (Z * option name)))). exact Hin.
     + destruct W as [W|W].
-      * apply (IH _ s); [apply in_or_app; now left | exact W].
-      * apply (IH _ (s_mop m s)); [apply in_or_app; right; now apply in_map | exact W].
-    + destruct W as [W1 W2]. apply (IH _ s); [|exact W2]. apply filter_In. auto.
+      * apply (IH _ (fst c, [])); [|exact W]. apply in_or_app. left.
+        apply (in_map (fun c => (fst c, @nil (Z * option name)))). exact Hin.
+      * apply (IH _ (s_mop m (fst c), [])); [|exact W]. apply in_or_app. right.
+        apply (in_map (fun c => (s_mop m (fst c), @nil (Z * option name)))). exact Hin.
+    + destruct W as [W1 W2]. apply (IH _ c); [|exact W2]. apply filter_In. auto.
+    + destruct W as [W1 W2].
+      apply (IH _ (if s_has n (fst c) then (fst c, (slot, Some n) :: snd c) else c)); [|exact W2].
+      apply (in_map (fun c => if s_has n (fst c) then (fst c, (slot, Some n) :: snd c) else c)).
+      apply filter_In. split; [exact Hin|]. now apply Z.eqb_eq.
+    + destruct W as [W1 W2].
+      apply (IH _ (match assoc slot (snd c) with Some hn => (s_stale hn ents (fst c), snd c) | None => c end)); [|exact W2].
+      apply (in_map (fun c => match assoc slot (snd c) with Some hn => (s_stale hn ents (fst c), snd c) | None => c end)).
+      apply filter_In. split; [exact Hin|]. now apply Z.eqb_eq.
+    + destruct W as (l & -> & W1 & W2). apply (IH _ c); [|exact W2]. apply filter_In. auto.
+    + destruct W as (l & -> & W1 & W2). apply (IH _ c); [|exact W2]. apply filter_In. auto.
 Qed.
 
 (** census *)
@@ -54,8 +201,7 @@ Proof.
   - apply forallb_forall. intros r Hr.
     destruct (is_data_fam (fst (fst r))) eqn:Ef; [|reflexivity]. cbn [negb orb].
     destruct (zmem (snd (fst r)) del) eqn:Ez.
-    + (* removed: nothing of that dataset id is left in the data families *)
-      apply orb_true_iff. right. apply negb_true_iff.
+    + apply orb_true_iff. right. apply negb_true_iff.
       destruct (existsb _ _) eqn:Ex; [|reflexivity]. apply existsb_exists in Ex.
       destruct Ex as (r' & Hr' & C). apply filter_In in Hr'. destruct Hr' as [_ Hk].
       apply andb_true_iff in C. destruct C as [C1 C2]. apply Z.eqb_eq in C2. rewrite C1, C2, Ez in Hk. discriminate.
@@ -80,29 +226,157 @@ Proof.
     pose proof (meta_some h o M Hin) as Ms. destruct (assoc o (h_meta h)); [reflexivity | contradiction].
 Qed.
 
-Lemma agree_wit ops : forall h, hfull h -> agree_run v_fixed h ops = true -> wit (habs h) ops.
+(** ** dataset handles: the model's (slot -> dataset id) against the spec's (slot -> dataset, dead once deleted) *)
+Definition slots_ok (h : hub) (a : aux) (hs : shandles) : Prop :=
+  forall slot,
+    match assoc slot (a_slots a) with
+    | None => assoc slot hs = None
+    | Some i => 0 < i < r_next (h_mem h)
+                /\ ((zmem i (h_del h) = true /\ assoc slot hs = Some None)
+                    \/ (zmem i (h_del h) = false /\ exists n, rassoc i (h_names h) = Some n /\ assoc slot hs = Some (Some n)))
+    end.
+
+Lemma slots_ok_same h h' a hs :
+  h_mem h' = h_mem h -> slots_ok h a hs -> slots_ok h' a hs.
+Proof. intros E S slot. specialize (S slot). unfold h_del, h_names in *. now rewrite E. Qed.
+Lemma slots_ok_nil h a : slots_ok h (drop_slots a) [].
+Proof. intros slot. reflexivity. Qed.
+
+Lemma assoc_map_snd {V W} (f : Z * V -> Z * W) (g : V -> W) slot (l : list (Z * V)) :
+  (forall p, f p = (fst p, g (snd p))) -> assoc slot (map f l) = option_map g (assoc slot l).
 Proof.
-  induction ops as [|o ops IH]; intros h F A; [exact I|].
-  destruct o as [n ents oc | m oc | before after | | m k | q oa]; cbn [agree_run wit] in *.
+  intros Hf. induction l as [|[k v] l IH]; cbn; [reflexivity|]. rewrite Hf. cbn.
+  destruct (Z.eqb slot k); [reflexivity | exact IH].
+Qed.
+
+Lemma slots_mop m h a hs : hfull h -> slots_ok h a hs ->
+  slots_ok (fst (run_mop v_fixed m h)) a (sh_mop m (habs h) hs).
+Proof.
+  intros F S. pose proof F as (H & O & M). pose proof H as [Hs Hd]. unfold dinvh in Hd. rewrite <- Hs in Hd.
+  pose proof Hd as Hd0. inv_rinv Hd0.
+  pose proof (mop_effect m h F) as [Hnx E]. cbv zeta in Hnx, E.
+  assert (SH : forall n, s_has n (habs h) = has_name n (h_names h)) by (intros; now apply s_has_abs).
+  set (h' := fst (run_mop v_fixed m h)) in *.
+  destruct m as [n|n|o n]; cbn [sh_mop s_outcome].
+  - (* create *)
+    intros slot. specialize (S slot). destruct (assoc slot (a_slots a)) as [i|]; [|exact S]. destruct S as [Hb S]. split; [lia|].
+    destruct (has_name n (h_names h)) eqn:En; destruct E as [E1 E2]; rewrite E2, E1; [exact S|].
+    destruct S as [S|(Z1 & x & R & A)]; [left; exact S | right; split; [exact Z1|]]. exists x. split; [|exact A].
+    rewrite rassoc_app_other; [exact R | lia].
+  - (* delete *)
+    destruct (Z.eqb_spec n core) as [Ec|Ec].
+    { cbn [orb Z.eqb]. destruct E as [E1 E2]. intros slot. specialize (S slot).
+      destruct (assoc slot (a_slots a)) as [i|]; [|exact S]. destruct S as [Hb S]. split; [lia|]. now rewrite E1, E2. }
+    cbn [orb]. rewrite (SH n). unfold has_name. destruct (assoc n (h_names h)) as [j|] eqn:En; cbn [negb Z.eqb].
+    2:{ destruct E as [E1 E2]. intros slot. specialize (S slot).
+        destruct (assoc slot (a_slots a)) as [i|]; [|exact S]. destruct S as [Hb S]. split; [lia|]. now rewrite E1, E2. }
+    destruct E as [E1 E2]. pose proof (assoc_rassoc _ _ _ Hids En) as Rj.
+    intros slot. specialize (S slot).
+    rewrite (assoc_map_snd _ (fun v : option name => match v with Some x => if Z.eqb x n then None else Some x | None => None end))
+      by (intros [k [x|]]; cbn; [destruct (Z.eqb x n)|]; reflexivity).
+    destruct (assoc slot (a_slots a)) as [i|]; [|now rewrite S]. destruct S as [Hb S]. split; [lia|]. rewrite E2, zmem_app.
+    destruct S as [(Z1 & A)|(Z1 & x & R & A)].
+    + left. rewrite Z1, A. auto.
+    + rewrite A. cbn [option_map]. destruct (Z.eqb_spec i j).
+      * subst i. left. cbn. rewrite Z.eqb_refl, orb_true_r. split; [reflexivity|].
+        assert (x = n) by (unfold h_names in *; congruence). subst x. now rewrite Z.eqb_refl.
+      * right. assert (Hx : x <> n). { intros ->. apply (rassoc_assoc _ _ _ Hnames) in R. unfold h_names in *. congruence. }
+        split.
+        -- rewrite Z1. cbn. destruct (Z.eqb_spec i j); [contradiction | reflexivity].
+        -- exists x. split; [rewrite E1; now apply rassoc_remove_other|]. destruct (Z.eqb_spec x n); [contradiction | reflexivity].
+  - (* rename *)
+    rewrite (SH o), (SH n).
+    assert (Unch : h_names h' = h_names h /\ h_del h' = h_del h -> slots_ok h' a hs).
+    { intros [E1 E2] slot. specialize (S slot). destruct (assoc slot (a_slots a)) as [i|]; [|exact S].
+      destruct S as [Hb S]. split; [lia|]. rewrite E1, E2. exact S. }
+    destruct (Z.eqb o core) eqn:B1; cbn [orb negb] in *; [cbn [Z.eqb]; now apply Unch|].
+    destruct (has_name o (h_names h)) eqn:B2; cbn [orb negb] in *; [|cbn [Z.eqb]; now apply Unch].
+    destruct (Z.eqb_spec n o) as [B3|B3]; cbn [orb] in *.
+    + (* rename to itself: outcome 0, the relabelling is the identity *)
+      subst n. cbn [Z.eqb]. intros slot. specialize (S slot). destruct E as [E1 E2].
+      rewrite (assoc_map_snd _ (fun v : option name => match v with Some x => if Z.eqb x o then Some o else Some x | None => None end))
+        by (intros [k [x|]]; cbn; [destruct (Z.eqb x o)|]; reflexivity).
+      assert (Hid : option_map (fun v : option name => match v with Some x => if Z.eqb x o then Some o else Some x | None => None end) (assoc slot hs) = assoc slot hs).
+      { destruct (assoc slot hs) as [[x|]|]; cbn; try reflexivity. destruct (Z.eqb_spec x o); [subst|]; reflexivity. }
+      rewrite Hid. destruct (assoc slot (a_slots a)) as [i|]; [|exact S]. destruct S as [Hb S]. split; [lia|]. now rewrite E1, E2.
+    + destruct (has_name n (h_names h)) eqn:B4; [cbn [Z.eqb]; now apply Unch|].
+      destruct E as [E1 E2]. cbn [Z.eqb].
+      intros slot. specialize (S slot).
+      rewrite (assoc_map_snd _ (fun v : option name => match v with Some x => if Z.eqb x o then Some n else Some x | None => None end))
+        by (intros [k [x|]]; cbn; [destruct (Z.eqb x o)|]; reflexivity).
+      destruct (assoc slot (a_slots a)) as [i|]; [|now rewrite S]. destruct S as [Hb S]. split; [lia|]. rewrite E2.
+      destruct S as [(Z1 & A)|(Z1 & x & R & A)].
+      * left. rewrite A. auto.
+      * right. split; [exact Z1|]. rewrite A. cbn [option_map]. rewrite E1, rassoc_relabel, R. cbn.
+        destruct (Z.eqb x o); eexists; split; reflexivity.
+Qed.
+
+Lemma write_mem v n ents h : h_mem (fst (write v n ents h)) = h_mem h.
+Proof. unfold write. destruct (assoc n (r_names (h_mem h))); reflexivity. Qed.
+
+Lemma agree_wit ops : forall h a hs, hfull h -> slots_ok h a hs -> agree_run v_fixed h a ops = true -> wit (habs h, hs) ops.
+Proof.
+  induction ops as [|o ops IH]; intros h a hs F S A; [exact I|].
+  destruct o as [n ents oc | m oc | before after | | m k | q oa | slot n oc | slot ents oc
+                 | slot start pred inverse scope o | slot start pred inverse o]; cbn [agree_run wit fst snd] in *.
   - pose proof (sim_step h (OWrite n ents) F) as [F' E]. cbn [step] in F', E.
+    pose proof (write_mem v_fixed n ents h) as Wm.
     destruct (write v_fixed n ents h) as [h' r] eqn:W. cbn [fst] in *. apply andb_true_iff in A. destruct A as [A1 A2].
     apply Z.eqb_eq in A1. split.
     + rewrite <- A1. unfold write in W. rewrite (s_has_abs h n (proj1 F)). unfold has_name, h_names.
       destruct (assoc n (r_names (h_mem h))); inversion W; reflexivity.
-    + unfold wef, wdm. rewrite <- E. now apply IH.
+    + unfold wef, wdm. rewrite <- E. apply (IH h' a hs F'); [|exact A2]. now apply (slots_ok_same h).
   - pose proof (sim_step h (OMop m) F) as [F' E]. cbn [step] in F', E.
-    pose proof (outcome_mop m h F) as OC.
+    pose proof (outcome_mop m h F) as OC. pose proof (slots_mop m h a hs F S) as S'.
     destruct (run_mop v_fixed m h) as [h' r] eqn:W. cbn [fst snd] in *. apply andb_true_iff in A. destruct A as [A1 A2].
-    apply Z.eqb_eq in A1. split; [congruence|]. rewrite <- E. now apply IH.
+    apply Z.eqb_eq in A1. split; [congruence|]. rewrite <- E. now apply (IH h' a).
   - apply andb_true_iff in A. destruct A as [A A3]. apply andb_true_iff in A. destruct A as [A1 A2].
     pose proof (sim_step h OGc F) as [F' E]. cbn [step] in F', E. split.
     + apply (list_eqb_eq crow_eqb crow_eqb_eq) in A2. rewrite <- A2. apply gc_census_ok_gc.
-    + rewrite <- E. now apply IH.
-  - pose proof (sim_step h ORestart F) as [F' E]. cbn [step] in F', E. rewrite <- E. now apply IH.
+    + rewrite <- E. apply (IH (gc h) a hs F'); [|exact A3]. now apply (slots_ok_same h).
+  - pose proof (sim_step h ORestart F) as [F' E]. cbn [step] in F', E. rewrite <- E.
+    apply (IH _ (drop_slots a) [] F'); [apply slots_ok_nil | exact A].
   - pose proof (sim_step h (OCrash m k) F) as [F' E]. cbn [step] in F', E.
-    destruct E as [E|E]; [left | right]; rewrite <- E; now apply IH.
-  - apply andb_true_iff in A. destruct A as [A1 A2]. split; [|now apply IH].
+    destruct E as [E|E]; [left | right]; rewrite <- E; (apply (IH _ (drop_slots a) [] F'); [apply slots_ok_nil | exact A]).
+  - apply andb_true_iff in A. destruct A as [A1 A2]. split; [|now apply (IH h a)].
     now rewrite <- (obs_abs h q F).
+  - (* hold *)
+    rewrite (s_has_abs h n (proj1 F)). unfold has_name.
+    destruct (assoc n (h_names h)) as [i|] eqn:En; apply andb_true_iff in A; destruct A as [A1 A2]; apply Z.eqb_eq in A1.
+    + cbn beta iota. split; [congruence|]. apply (IH h {| a_slots := (slot, i) :: a_slots a; a_conts := a_conts a |} ((slot, Some n) :: hs) F); [|exact A2].
+      pose proof F as ([Hs Hd] & _ & _). unfold dinvh in Hd. rewrite <- Hs in Hd. pose proof Hd as Hd0. inv_rinv Hd0.
+      destruct (names_id_of _ _ _ _ Hd En) as (Hb & L & _).
+      intros slot'. cbn [a_slots assoc]. specialize (S slot'). destruct (Z.eqb_spec slot' slot).
+      * split; [exact Hb|]. right. split; [exact L|]. exists n. split; [now apply assoc_rassoc | reflexivity].
+      * exact S.
+    + cbn beta iota. split; [congruence|]. now apply (IH h a).
+  - (* a write through a handle *)
+    pose proof (S slot) as Ss. destruct (assoc slot (a_slots a)) as [i|] eqn:Ea;
+      apply andb_true_iff in A; destruct A as [A1 A2]; apply Z.eqb_eq in A1.
+    + destruct Ss as [Hb [(Z1 & Ah)|(Z1 & x & R & Ah)]]; rewrite Ah; (split; [congruence|]).
+      * destruct (stale_deleted_full h i ents F Z1 Hb) as [F' E]. cbn [s_stale]. rewrite <- E.
+        apply (IH _ a hs F'); [|exact A2]. now apply (slots_ok_same h).
+      * pose proof F as ([Hs Hd] & _ & _). unfold dinvh in Hd. rewrite <- Hs in Hd. pose proof Hd as Hd0. inv_rinv Hd0.
+        assert (Ax : assoc x (h_names h) = Some i) by now apply rassoc_assoc.
+        rewrite (stale_live_is_write h i x ents Ax) in A2.
+        pose proof (sim_step h (OWrite x ents) F) as [F' E]. cbn [step] in F', E.
+        cbn [s_stale]. rewrite (s_has_abs h x (proj1 F)). unfold has_name. rewrite Ax. unfold wef, wdm. rewrite <- E.
+        apply (IH _ a hs F'); [|exact A2]. apply (slots_ok_same h); [apply write_mem | exact S].
+    + rewrite Ss. split; [congruence|]. now apply (IH h a).
+  - (* first page of a paged query *)
+    destruct o as [l|]; [|discriminate]. apply andb_true_iff in A. destruct A as [A1 A2].
+    exists l. split; [reflexivity|]. split.
+    + rewrite <- (obs_abs h _ F), <- rel_ids_obs. exact A1.
+    + apply (IH h {| a_slots := a_slots a; a_conts := (slot, scope_ids (h_names h) scope) :: a_conts a |} hs F); [exact S | exact A2].
+  - (* the remaining pages, later *)
+    destruct o as [l|]; [|destruct (assoc slot (a_conts a)); discriminate].
+    exists l. split; [reflexivity|].
+    assert (U : rel_ids h [] start pred inverse = rel_of (sobs (habs h) (QRelated start pred inverse []))).
+    { rewrite <- (obs_abs h _ F). reflexivity. }
+    destruct (assoc slot (a_conts a)) as [sc|].
+    + apply andb_true_iff in A. destruct A as [A1 A2]. split; [|now apply (IH h a)].
+      rewrite <- U. apply (subsetb_mono _ _ _ A1). intros x. apply rel_ids_unscoped.
+    + destruct l; [|discriminate]. split; [reflexivity | now apply (IH h a)].
 Qed.
 
 Lemma habs0 : habs hub0 = sstate0.
@@ -110,10 +384,11 @@ Proof. reflexivity. Qed.
 
 (** agreement of the implementation's observations with the repaired model implies that the executable spec
     accepts them: some run of the spec (named datasets; delete drops, rename relabels, create appends an empty
-    dataset, collection and restart do nothing, a crash leaves the state before or after the operation) explains
-    every observed outcome and answer *)
+    dataset, collection and restart do nothing, a crash leaves the state before or after the operation, a write
+    through the handle of a deleted dataset is never seen, a continued query returns nothing of a deleted dataset)
+    explains every observed outcome and answer *)
 Theorem C07_agree_implies_spec_thm c : agree v_fixed c = true -> spec_ok c = true.
 Proof.
-  intros A. unfold spec_ok. apply (spec_run_wit c [sstate0] sstate0); [now left|].
-  rewrite <- habs0. apply agree_wit; [exact hfull0 | exact A].
+  intros A. unfold spec_ok. apply (spec_run_wit c [(sstate0, [])] (sstate0, [])); [now left|].
+  rewrite <- habs0. apply (agree_wit c hub0 aux0 []); [exact hfull0 | intros slot; reflexivity | exact A].
 Qed.
